@@ -69,6 +69,21 @@ def r02_2(ctx, layers):
                 key = "remove-result:%s:%s:%s" % (owner, cal.key(), where if g is f else g.path.rsplit("::", 1)[1])
                 r.ob(key, used, g.loc(span_line(t["s"])),
                      "result of `%s` %s" % (cal.key(), "is propagated" if used else "is dropped: the removed route is not returned to the caller"))
+                # inside a traversal closure (called once per bucket) the result goes into a variable of the enclosing
+                # function: a bucket that did not hold the route must not overwrite what an earlier bucket returned
+                if g is not f and g.is_closure:
+                    over = False
+                    for p in Sym(g, copies=True).paths():
+                        for e in p.events:
+                            if e[0] == "write" and mentions(e[1], lambda x: x[0] == "field" and len(x) > 3 and x[3] == "{closure}") and e[2][0] == "call" and e[2][1] == cal.key():
+                                caps = {x for x in walk(e[1]) if x[0] == "field" and len(x) > 3 and x[3] == "{closure}"}
+                                # (fine when the path established that nothing was found so far)
+                                empty_so_far = any(a[0] == "call" and a[1].rsplit("::", 1)[1] in ("is_some", "is_none") and any(c in set(walk(a[2][0])) for c in caps)
+                                                   and v == (0 if a[1].endswith("is_some") else 1) for a, v in p.conds)
+                                if not empty_so_far:
+                                    over = True
+                    r.ob(key + ":kept", not over, g.loc(span_line(t["s"])),
+                         "a found route is kept: the captured result is assigned only when this bucket returned one" if not over else "the captured result is overwritten with whatever this bucket returned — `None` from a later bucket erases the removed route")
         return n
 
     def body(r):
